@@ -151,21 +151,14 @@ Proof.
   apply bind_inv in H as (u & b1 & H1 & H2).
   destruct (run_alloc_any _ _ _ _ b H1) as [-> Ha].
   rewrite (run_bind_ok _ _ b tt b Ha).
-  apply (pref_read_chunks _ (S (length b)) len [] b e a rest); [lia | exact H2].
+  apply (pref_read_chunks (S (length (b ++ e))) (S (length b)) len [] b e a rest); [lia | exact H2].
 Qed.
 
 (* ------------------------------------------------------------------ *)
 (* the codecs the store's files are made of *)
 
 Ltac pf2 :=
-  repeat (pf; match goal with
-  | |- pref_ok (read_be _) => apply pref_read_be
-  | |- pref_ok read_u8 => apply pref_read_be
-  | |- pref_ok read_u32 => apply pref_read_be
-  | |- pref_ok read_u64 => apply pref_read_be
-  | |- pref_ok read_i64 => apply pref_read_i64
-  | |- pref_ok (read_vec _) => apply pref_read_vec
-  end).
+  repeat first [ progress pf | apply pref_read_be | apply pref_read_i64 | apply pref_read_vec ].
 
 Lemma pref_read_uri valid : pref_ok (read_uri valid).
 Proof. unfold read_uri. pf2. Qed.
